@@ -1,4 +1,5 @@
 import TunnoxModel.Proofs.C19SimK
+import TunnoxModel.Proofs.C19Fault
 /-!
 # C19 — a public domain routes only to its single rightful owner
 
@@ -268,6 +269,31 @@ theorem C19_deleted_stays_unindexed (i : Input) (ts ts' : List Nat) (t n cl : Na
       obtain ⟨o, ho⟩ := hb
       exact ih _ (hI.step t') ⟨o, hI.born_mono t' n o ho⟩ (hI.unindexed_step t' n ⟨o, ho⟩ hu)
   exact key ts' _ hI hb hu
+
+/-! ### rollback: a single storage failure inside `CreateMapping` -/
+
+/-- **A failed create leaves no index / record / list entry.**  For every history run before it (`i`), every
+create input and every position `k` of one failing storage call (Incr, SetNX, Set record, the two list appends; also
+the refusals without any failure): whenever the create does not answer ok, the observed store entries afterwards
+equal those before (`holdsFault`, the predicate the driver applies to the real code run through the fault gate);
+only the id counter may have advanced. -/
+theorem C19_failed_create_leaves_nothing (i uni : Input) (cl : Nat) (sub base th : String) (tp k : Nat) :
+    holdsFault (modelFault i uni cl sub base th tp k) = true :=
+  holdsFault_model i uni cl sub base th tp k
+
+/-- Field-level form for an arbitrary store whose next record slot is empty. -/
+theorem C19_failed_create_rolls_back (cf : Config) (s : Store) (cl : Nat) (sub base th : String) (tp k : Nat)
+    (code : String) (hfresh : s.data (s.next + 1) = none)
+    (h : (createFault cf s cl sub base th tp k).2 = .err code) :
+    (createFault cf s cl sub base th tp k).1.index = s.index ∧ (createFault cf s cl sub base th tp k).1.data = s.data ∧
+    (createFault cf s cl sub base th tp k).1.clientList = s.clientList ∧
+    (createFault cf s cl sub base th tp k).1.globalList = s.globalList :=
+  let r := createFault_err_same cf s cl sub base th tp k code hfresh h
+  ⟨r.1, r.2.1, r.2.2.1, r.2.2.2.1⟩
+
+/-- Non-vacuity: the record write failing after a successful claim is rolled back. -/
+example : (createFault ⟨.repaired, 0, ["t.net"], []⟩ (initStore ⟨⟨.repaired, 0, ["t.net"], []⟩, [], [], []⟩) 1 "a" "t.net" "h" 80 3).2
+    = .err Gen.coreerrors.CodeStorageError := by decide +kernel
 
 /-! ### the tree as found: the witness -/
 
